@@ -257,8 +257,13 @@ def v_bingham(case, R):
     D, lead, N = case['D'], tuple(case['lead']), case['N']
     U = gen.random_unitary(rng, D, lead)
     lam = np.empty((*lead, D))
+    shifted = rng.uniform() < 0.5
     for idx in np.ndindex(*lead):
         lam[idx] = _bingham_eigs(rng, D, case['cluster'])
+        if shifted:
+            # the density on the sphere is invariant to a common shift of the eigenvalues, so sets at any level are valid parameters
+            # (a different level for every member of a stack); everything stays within +-500
+            lam[idx] = lam[idx] + rng.uniform(-430, 490)
     z = oracles.unit(gen.cnormal(rng, (*lead, N, D)))
     try:
         model = ComplexBingham(covariance_eigenvectors=U, covariance_eigenvalues=lam.copy())
@@ -304,7 +309,8 @@ def v_cacg(case, R):
     lam = np.exp(rng.uniform(-math.log(cond), 0, size=(*lead, D)))
     lam[..., 0] = 1.0
     if rng.uniform() < 0.5:
-        lam = lam * 10 ** rng.uniform(-14, 6, size=(*lead, 1))          # un-normalised covariances (covariance_norm=False) of any scale
+        # un-normalised covariances (covariance_norm=False) of any scale: the cACG density does not depend on the scale of its matrix
+        lam = lam * 10 ** rng.uniform(*((-14, 6) if rng.uniform() < 0.5 else (-60, 60)), size=(*lead, 1))
     y = gen.cnormal(rng, (*lead, N, D)) * 10 ** rng.uniform(-50, 50, size=(*lead, N, 1))
     try:
         got = ComplexAngularCentralGaussian(covariance_eigenvectors=U, covariance_eigenvalues=lam).log_pdf(y)
